@@ -30,10 +30,10 @@ FUNCTIONS = [
 ]
 MUST_REACH = ["fetch.encode_header", "fetch.encode_addrs", "fetch.FetchAtt.envelope", "fetch.FetchAtt.bodystructure", "fetch.FetchAtt.body_parameters", "fetch.FetchAtt.body_disposition", "fetch.FetchAtt.body", "client.Authenticated._fmt_list_response", "client.Authenticated.do_status"]
 BOUNDS = {
-    "quick": {"string sites": "strings of <= 2 characters over 12 representatives of the character classes the quoting code distinguishes (DQUOTE, backslash, CR, LF, NUL, ASCII letter, 8-bit, SP, '(', '{', '%', DEL); str.encode() realises symbolic characters, so they are enumerated", "literal": "symbolic bytes <= 4, partial offsets 0..6", "responses": "messages from a menu of 12 header/structure variants x 8 fetch item sets; 8 mailbox names"},
+    "quick": {"string sites": "strings of <= 2 characters over 12 representatives of the character classes the quoting code distinguishes (DQUOTE, backslash, CR, LF, NUL, ASCII letter, 8-bit, SP, '(', '{', '%', DEL); str.encode() realises symbolic characters, so they are enumerated", "literal": "payloads of <= 3 octets over 5 octet classes (CR, LF, letter, NUL, high octet), symbolic partial offset and count 0..4", "error text": "NO/BAD/exception texts echoing strings of <= 2 characters over the same 12 classes", "responses": "messages from a menu of 12 header/structure variants x 8 fetch item sets; 8 mailbox names"},
     "thorough": {"string sites": "<= 3 characters"},
 }
-SYMBOLIC = ["literal payload bytes, length and partial offsets"]
+SYMBOLIC = ["string / payload selectors", "partial offset and count"]
 REALISED = ["string selector of part (a) (str.encode at the head of every site realises a symbolic string)", "menu selectors of part (c)"]
 STUBS = ["a fake email.message object exposing the API fetch.py calls (part a)", "msg_as_bytes stub returning the symbolic payload (part b)", "FakeMH with real message texts parsed by the stdlib email package (part c)"]
 ASSUMPTIONS = ["header values with code points >= 256 leave encode_header through email.header.Header.encode (stdlib) - outside the claim", "octets inside literals are arbitrary (framing only)"]
@@ -336,13 +336,26 @@ def _string_site(s):
 # ---------------------------------------------------------------------------
 
 
-def literal_framing(ln: int, b0: int, b1: int, b2: int, b3: int, part: bool, o: int, n: int) -> bool:
+BALPHA = [13, 10, 97, 0, 255]  # CR, LF, a letter, NUL, a high octet: the classes the framing code can tell apart
+
+
+def literal_framing(i: int, part: bool, o: int, n: int) -> bool:
     """
-    pre: 0 <= ln <= 4 and 0 <= o <= 6 and 0 <= n <= 6
-    pre: 0 <= b0 < 256 and 0 <= b1 < 256 and 0 <= b2 < 256 and 0 <= b3 < 256
+    pre: core.PARAMS["lo"] <= i < core.PARAMS["hi"] and 0 <= o <= core.PARAMS.get("omax", 6) and 0 <= n <= core.PARAMS.get("omax", 6)
     post: _
     """
-    return held(_literal_framing, locals())
+    i = core.pick(i, core.PARAMS["lo"], core.PARAMS["hi"])
+    ln, base = 0, 0
+    while i >= base + len(BALPHA) ** ln:
+        base += len(BALPHA) ** ln
+        ln += 1
+    k = i - base
+    bs = []
+    for _ in range(ln):
+        bs.append(BALPHA[k % len(BALPHA)])
+        k //= len(BALPHA)
+    bs = (bs + [0, 0, 0, 0])[:4]
+    return held(_literal_framing, {"ln": ln, "b0": bs[0], "b1": bs[1], "b2": bs[2], "b3": bs[3], "part": part, "o": o, "n": n})
 
 
 def _literal_framing(ln, b0, b1, b2, b3, part, o, n):
@@ -382,13 +395,14 @@ ITEMS = [
 
 def fetch_response(sub: int, frm: int, st: int, it: int) -> bool:
     """
-    pre: 0 <= sub < 12 and 0 <= frm < 8 and 0 <= st < 7 and 0 <= it < 8
+    pre: core.PARAMS.get("sublo", 0) <= sub < core.PARAMS.get("subhi", 12) and 0 <= frm < 8 and 0 <= st < 7 and 0 <= it < 8
     pre: core.PARAMS.get("st") is None or st == core.PARAMS["st"]
     pre: core.PARAMS.get("it") is None or it == core.PARAMS["it"]
     pre: core.PARAMS.get("frm") is None or frm == core.PARAMS["frm"]
     post: _
     """
-    return held(_fetch_response, core.concrete(locals()))
+    P = core.PARAMS
+    return held(_fetch_response, {"sub": core.pick(sub, P.get("sublo", 0), P.get("subhi", 12)), "frm": core.pick(frm, 0, 8) if P.get("frm") is None else P["frm"], "st": core.pick(st, 0, 7) if P.get("st") is None else P["st"], "it": core.pick(it, 0, 8) if P.get("it") is None else P["it"]})
 
 
 def _fetch_response(sub, frm, st, it):
@@ -458,12 +472,12 @@ def _name_response(nm, kind):
     w.shutdown()
 
 
-def error_text(s: str) -> bool:
+def error_text(i: int) -> bool:
     """
-    pre: len(s) <= 2 and all(ord(c) < 256 for c in s)
+    pre: 0 <= i < core.PARAMS["total"]
     post: _
     """
-    return held(_error_text, locals())
+    return held(_error_text, {"s": _string_of(core.pick(i, 0, core.PARAMS["total"]))})
 
 
 def _error_text(s):
@@ -505,16 +519,19 @@ def jobs(tier):
     for site in SITES:
         for lo in range(0, total, 400):
             js.append({"name": f"string_site[{site}][{lo}]", "fn": "string_site", "params": {"site": site, "lo": lo, "hi": min(total, lo + 400)}, "timeout": T, "per_path": 90})
-    js.append({"name": "literal_framing", "fn": "literal_framing", "params": {}, "timeout": T, "per_path": 60})
+    nb = sum(len(BALPHA) ** k for k in range((3 if q else 4) + 1))
+    for lo in range(0, nb, 40):
+        js.append({"name": f"literal_framing[{lo}]", "fn": "literal_framing", "params": {"lo": lo, "hi": min(nb, lo + 40), "omax": 4 if q else 6}, "timeout": T, "per_path": 60})
     for st in range(len(STRUCTS)):
         for it in range(len(ITEMS)):
             if q and not (it in (0, 1, 6) or st == 1):
                 continue
             for frm in (range(len(FROMS)) if not q else [None]):
-                js.append({"name": f"fetch_response[st={st},it={it},frm={frm}]", "fn": "fetch_response", "params": {"st": st, "it": it, "frm": frm}, "timeout": T, "per_path": 90})
+                for sublo in ((0, 6) if q else (0,)):
+                    js.append({"name": f"fetch_response[st={st},it={it},frm={frm},sub={sublo}..]", "fn": "fetch_response", "params": {"st": st, "it": it, "frm": frm, "sublo": sublo, "subhi": sublo + 6 if q else 12}, "timeout": T, "per_path": 90})
     js.append({"name": "name_response", "fn": "name_response", "params": {}, "timeout": T, "per_path": 90, "unblock": UNBLOCK})
     for which in ("no", "bad", "exc"):
-        js.append({"name": f"error_text[{which}]", "fn": "error_text", "params": {"which": which}, "timeout": T, "per_path": 60})
+        js.append({"name": f"error_text[{which}]", "fn": "error_text", "params": {"which": which, "total": _nstrings(2 if q else 3)}, "timeout": T, "per_path": 60})
     return js
 
 
@@ -525,8 +542,8 @@ SAMPLES = [
     {"fn": "string_site", "params": {"site": "list_name", "lo": 0, "hi": 157}, "args": {"i": 77}},
     {"fn": "string_site", "params": {"site": "status_name", "lo": 0, "hi": 157}, "args": {"i": 77}},
     {"fn": "string_site", "params": {"site": "envelope_addr_name", "lo": 0, "hi": 157}, "args": {"i": 77}},
-    {"fn": "literal_framing", "params": {}, "args": {"ln": 3, "b0": 65, "b1": 13, "b2": 10, "b3": 0, "part": True, "o": 1, "n": 3}},
+    {"fn": "literal_framing", "params": {"lo": 0, "hi": 156}, "args": {"i": 100, "part": True, "o": 1, "n": 3}},
     {"fn": "fetch_response", "params": {}, "args": {"sub": 0, "frm": 0, "st": 2, "it": 6}},
     {"fn": "name_response", "params": {}, "args": {"nm": 0, "kind": 3}},
-    {"fn": "error_text", "params": {"which": "no"}, "args": {"s": "ab"}},
+    {"fn": "error_text", "params": {"which": "no", "total": 157}, "args": {"i": 40}},
 ]
